@@ -36,6 +36,14 @@ def gen_T05():
     need(len(assigns) == 1, 'IrcMsg.__str__: self._str assigned %d times' % len(assigns))
     ln = find_def(t, '__len__', 'IrcMsg')
     need(ast.unparse(ln.body[-1]) == 'return len(str(self))', 'IrcMsg.__len__ changed')
+    # the keyword branch must give every message built without tags its OWN empty dict: no mutable default argument
+    # anywhere in the signature, and `if server_tags is None: self.server_tags = {}` in the body
+    for d in init.args.defaults + [k for k in init.args.kw_defaults if k is not None]:
+        need(isinstance(d, ast.Constant) or (isinstance(d, ast.Tuple) and not d.elts),
+             'IrcMsg.__init__: mutable default argument %s' % ast.unparse(d))
+    need("if server_tags is None:\n    self.server_tags = {}\nelse:\n    self.server_tags = server_tags" in
+         [ast.unparse(n) for n in ast.walk(init) if isinstance(n, ast.If)],
+         'IrcMsg.__init__: untagged keyword-built messages no longer get a fresh server_tags dict')
     out = 'Require Import Base.Wire.\n'
     out += 'Definition SERVER_TAG_ESCAPE : list (N * list N) :=\n  %s.\n' % clist(
         '(%d, %s)' % (ord(k), cstr(img)) for k, img in pairs)
